@@ -1295,34 +1295,33 @@ def p08_aliasLoop (full name qname : String) (qs : List String) : String × Stri
   ((qs.foldl (p08_aliasStep full) (name, qname, false)).1, (qs.foldl (p08_aliasStep full) (name, qname, false)).2.1)
 
 /-- the choice among the candidate qualified names: a single candidate is taken as it is; otherwise
-    the qualified name `k` the caller already knows wins if it is one of the candidates; otherwise
     the loop runs over the SORTED candidates -/
-def p08_aliasPick (full name qname : String) (qs : List String) (k : String := "") : String × String :=
+def p08_aliasPick (full name qname : String) (qs : List String) : String × String :=
   match qs with
   | [q] => (p08_aliasNm q, q)
-  | qs => if qs.contains k then (p08_aliasNm k, k) else p08_aliasLoop full name qname (sortStrings qs)
+  | qs => p08_aliasLoop full name qname (sortStrings qs)
 
-theorem p08_aliasPick_nil (full name qname k : String) :
-    p08_aliasPick full name qname [] k = p08_aliasLoop full name qname (sortStrings []) := rfl
+theorem p08_aliasPick_nil (full name qname : String) :
+    p08_aliasPick full name qname [] = p08_aliasLoop full name qname (sortStrings []) := rfl
 
-theorem p08_aliasPick_single (full name qname q k : String) :
-    p08_aliasPick full name qname [q] k = (p08_aliasNm q, q) := rfl
+theorem p08_aliasPick_single (full name qname q : String) :
+    p08_aliasPick full name qname [q] = (p08_aliasNm q, q) := rfl
 
-theorem p08_aliasPick_many (full name qname a b : String) (rest : List String) (k : String) :
-    p08_aliasPick full name qname (a :: b :: rest) k =
-      if (a :: b :: rest).contains k then (p08_aliasNm k, k)
-      else p08_aliasLoop full name qname (sortStrings (a :: b :: rest)) := rfl
+theorem p08_aliasPick_many (full name qname a b : String) (rest : List String) :
+    p08_aliasPick full name qname (a :: b :: rest) =
+      p08_aliasLoop full name qname (sortStrings (a :: b :: rest)) := rfl
 
-/-- not a single candidate: the known name, if it is a candidate, else the sorted loop -/
-theorem p08_aliasPick_ne_one (full name qname : String) {qs : List String} (hlen : qs.length ≠ 1) (k : String) :
-    p08_aliasPick full name qname qs k =
-      if qs.contains k then (p08_aliasNm k, k) else p08_aliasLoop full name qname (sortStrings qs) := by
+/-- not a single candidate: the sorted loop -/
+theorem p08_aliasPick_ne_one (full name qname : String) {qs : List String} (hlen : qs.length ≠ 1) :
+    p08_aliasPick full name qname qs = p08_aliasLoop full name qname (sortStrings qs) := by
   match qs, hlen with
   | [], _ => rfl
   | [q], h => exact absurd rfl h
   | a :: b :: rest, _ => rfl
 
-/-- closed form of `_find_alias`, for every known qualified name `k` (the default of the model is `""`) -/
+/-- closed form of `_find_alias`, for every known qualified name `k` (the default of the model is `""`):
+    after the import search a non-empty known name is returned as it is, the candidates are consulted
+    only for `k = ""` -/
 theorem p08_findAlias_eq (env : AEnv) (s : VSt) (typeName : String) (k : String) :
     findAlias env s typeName k =
       match bottomModule s with
@@ -1330,10 +1329,11 @@ theorem p08_findAlias_eq (env : AEnv) (s : VSt) (typeName : String) (k : String)
       | some m =>
         if (searchAliasInImports m.qualifiedImports typeName).1 != "" && (searchAliasInImports m.qualifiedImports typeName).2 != ""
         then .ok (searchAliasInImports m.qualifiedImports typeName)
+        else if k != "" then .ok (p08_aliasNm k, k)
         else match assocGet? env.aliases typeName with
           | none => .ok (searchAliasInImports m.qualifiedImports typeName)
           | some qs => .ok (p08_aliasPick s.fileFullname (searchAliasInImports m.qualifiedImports typeName).1
-              (searchAliasInImports m.qualifiedImports typeName).2 qs k) := by
+              (searchAliasInImports m.qualifiedImports typeName).2 qs) := by
   unfold findAlias
   cases bottomModule s with
   | none => rfl
@@ -1341,19 +1341,15 @@ theorem p08_findAlias_eq (env : AEnv) (s : VSt) (typeName : String) (k : String)
     simp only []
     split
     · rfl
-    · cases assocGet? env.aliases typeName with
-      | none => rfl
-      | some qs =>
-        match qs with
-        | [] => rfl
-        | [q] => rfl
-        | a :: b :: rest =>
-          simp only []
-          rw [p08_aliasPick_many]
-          generalize sortStrings (a :: b :: rest) = l
-          split
-          · rfl
-          · rfl
+    · split
+      · rfl
+      · cases assocGet? env.aliases typeName with
+        | none => rfl
+        | some qs =>
+          match qs with
+          | [] => rfl
+          | [q] => rfl
+          | a :: b :: rest => rfl
 
 /-- the three-argument form (`known_qname = ""`) -/
 theorem p08_findAlias_eq_default (env : AEnv) (s : VSt) (typeName : String) :
@@ -1366,8 +1362,10 @@ theorem p08_findAlias_eq_default (env : AEnv) (s : VSt) (typeName : String) :
         else match assocGet? env.aliases typeName with
           | none => .ok (searchAliasInImports m.qualifiedImports typeName)
           | some qs => .ok (p08_aliasPick s.fileFullname (searchAliasInImports m.qualifiedImports typeName).1
-              (searchAliasInImports m.qualifiedImports typeName).2 qs) :=
-  p08_findAlias_eq env s typeName ""
+              (searchAliasInImports m.qualifiedImports typeName).2 qs) := by
+  rw [p08_findAlias_eq]
+  have he : ((("" : String) != "") = true) = False := by decide
+  simp only [he, if_false]
 
 theorem p08_aliasFold_done (full : String) (qs : List String) (x y : String) :
     qs.foldl (p08_aliasStep full) (x, y, true) = (x, y, true) := by
@@ -1409,17 +1407,9 @@ theorem p08_sorted_foldl_perm {β : Type} (step : β → String → β) (init : 
     (h : qs ~ qs') : (sortStrings qs).foldl step init = (sortStrings qs').foldl step init := by
   rw [p08_sortStrings_perm h]
 
-/-- membership of the known name in the candidate set does not depend on the iteration order -/
-theorem p08_contains_perm {qs qs' : List String} (h : qs ~ qs') (k : String) :
-    qs.contains k = qs'.contains k := by
-  rw [Bool.eq_iff_iff, List.contains_iff_mem, List.contains_iff_mem]
-  exact h.mem_iff
-
-/-- the choice among the candidates is a function of the candidate SET (no side condition left),
-    for every known qualified name `k` -/
-theorem p08_aliasPick_perm (full name qname : String) {qs qs' : List String} (h : qs ~ qs')
-    (k : String := "") :
-    p08_aliasPick full name qname qs k = p08_aliasPick full name qname qs' k := by
+/-- the choice among the candidates is a function of the candidate SET (no side condition left) -/
+theorem p08_aliasPick_perm (full name qname : String) {qs qs' : List String} (h : qs ~ qs') :
+    p08_aliasPick full name qname qs = p08_aliasPick full name qname qs' := by
   have hlen := h.length_eq
   match qs, qs', hlen with
   | [], [], _ => rfl
@@ -1427,9 +1417,10 @@ theorem p08_aliasPick_perm (full name qname : String) {qs qs' : List String} (h 
     have : q = q' := by simpa using h
     subst this; rfl
   | a :: b :: rest, a' :: b' :: rest', _ =>
-    rw [p08_aliasPick_many, p08_aliasPick_many, p08_sortStrings_perm h, p08_contains_perm h k]
+    rw [p08_aliasPick_many, p08_aliasPick_many, p08_sortStrings_perm h]
 
-/-- `_find_alias` for two iteration orders of `aliases[typeName]`, for every known qualified name -/
+/-- `_find_alias` for two iteration orders of `aliases[typeName]`, for every known qualified name
+    (for a non-empty known name the candidates are not consulted at all) -/
 theorem p08_findAlias_perm (env env' : AEnv) (s : VSt) (typeName : String) {qs qs' : List String}
     (h1 : assocGet? env.aliases typeName = some qs) (h2 : assocGet? env'.aliases typeName = some qs')
     (h : qs ~ qs') (k : String := "") :
@@ -1437,19 +1428,19 @@ theorem p08_findAlias_perm (env env' : AEnv) (s : VSt) (typeName : String) {qs q
   rw [p08_findAlias_eq, p08_findAlias_eq, h1, h2]
   cases bottomModule s with
   | none => rfl
-  | some m => simp only [p08_aliasPick_perm _ _ _ h k]
+  | some m => simp only [p08_aliasPick_perm _ _ _ h]
 
-/-- the known qualified name wins: several (or no) candidates, the known name among them, no hit in
-    the qualified imports -/
-theorem p08_findAlias_known (env : AEnv) (s : VSt) (typeName k : String) {qs : List String} {m : Module}
+/-- the known qualified name wins: no hit in the qualified imports and a non-empty known name; the
+    candidates are not consulted -/
+theorem p08_findAlias_known (env : AEnv) (s : VSt) (typeName k : String) {m : Module}
     (hm : bottomModule s = some m)
     (himp : ((searchAliasInImports m.qualifiedImports typeName).1 != "" &&
       (searchAliasInImports m.qualifiedImports typeName).2 != "") = false)
-    (h1 : assocGet? env.aliases typeName = some qs) (hlen : qs.length ≠ 1) (hk : k ∈ qs) :
+    (hk : k ≠ "") :
     findAlias env s typeName k = .ok (lastD "" (splitDot k), k) := by
-  rw [p08_findAlias_eq, hm, h1]
-  simp only [himp, Bool.false_eq_true, if_false]
-  rw [p08_aliasPick_ne_one _ _ _ hlen, if_pos (List.contains_iff_mem.2 hk)]
+  rw [p08_findAlias_eq, hm]
+  have hk' : (k != "") = true := by simpa using hk
+  simp only [himp, Bool.false_eq_true, if_false, hk', if_true]
   rfl
 
 /-- the whole alias table with permuted candidate lists (same keys in the same order) -/
